@@ -78,7 +78,10 @@ def main(args):
         for prop in meta['props']:
             env = dict(os.environ); env['VERIF_REPO'] = SCRATCH; env['VERIF_BUILD'] = SBUILD; env['VERIF_EVIDENCE'] = SBUILD + '/evidence'; env['VERIF_REPLAYS'] = SBUILD + '/replays'
             t0 = time.time()
-            rr = subprocess.run(['python3', os.path.join(ROOT, 'bin', 'verif'), 'check', prop, '--tier', tier], stdout=subprocess.PIPE, stderr=subprocess.PIPE, text=True, env=env, cwd=ROOT)
+            try:
+                rr = subprocess.run(['timeout', '-k', '10', '2400', 'python3', os.path.join(ROOT, 'bin', 'verif'), 'check', prop, '--tier', tier], stdout=subprocess.PIPE, stderr=subprocess.PIPE, text=True, env=env, cwd=ROOT)
+            finally:
+                subprocess.run('pkill -9 -f %s/ 2>/dev/null' % env.get('VERIF_BUILD', '/nonexistent-build-dir'), shell=True)      # a check cut by the timeout may leave harness children behind
             viol = [l for l in rr.stdout.splitlines() if l.startswith('VIOLATION')]
             det.append((prop, rr.returncode, len(viol), round(time.time() - t0, 1), rr.stderr[-400:] if not viol else ''))
         caught = any(d[2] > 0 and d[1] == 1 for d in det)
